@@ -179,7 +179,7 @@ def _adapter(case):
                     tol = 1e-5 * max(1e-4, float(np.abs(exp).max()))  # Pulser rounds coordinates / distances to 1e-6 um
                     if np.abs(got - got.T).max() > 0 or np.abs(np.diag(got)).max() > 0:
                         return result(False, sig="symmetry", msg=f"{label} t={t}: not symmetric / non-zero diagonal: {got.tolist()}", outcome="sym")
-                    if np.abs(got - exp).max() > tol:
+                    if not np.abs(got - exp).max() <= tol:  # NaN fails
                         i, j = np.unravel_index(np.abs(got - exp).argmax(), got.shape)
                         where = "before" if t < end else "after"
                         kind = "mask" if (mask and (i in mask or j in mask)) else ("cutoff" if exp[i, j] == 0 or got[i, j] == 0 else "value")
